@@ -97,6 +97,27 @@ def deadline(ctx, rep, rule):
                           obligation=True)
 
 
+def recv_loops(ctx, rep, rule):
+    """No other loop re-issues a blocking receive: any loop (in any function) around Socket::recv / recv_socket other than the
+    skip loop of _recv_inner would re-arm the full SO_RCVTIMEO on each iteration."""
+    facts = ctx.facts
+    n = 0
+    for body in facts.body_list:
+        recv = [b.idx for b in body.calls() if (callee_path(b.term) or "").endswith("Socket::recv") or (callee_path(b.term) or "").endswith("::recv_socket") or
+                (callee_path(b.term) or "").endswith("Socket::recv_from")]
+        if not recv:
+            continue
+        n += 1
+        if body.path == "socket::snmpsocket::SnmpSocket::_recv_inner":
+            continue
+        loops = cfg.natural_loops(body)
+        inl = [h for h, bl in loops.items() if any(r in bl for r in recv)]
+        rep.check(rule, "%s|no-receive-loop" % body.path, not inl, "recv is issued once per call", "recv is re-issued in a loop: every iteration (e.g. after a "
+                  "signal or a spurious wake-up) waits for the full timeout again, so the call can outlive its timeout", body.loc(), obligation=True)
+    if n < 2:
+        rep.missing(rule, "functions calling Socket::recv / recv_socket")
+
+
 def _cycle_without(body, head, blocks, cut):
     """Is there a cycle head -> ... -> head inside `blocks` avoiding the cut edges?"""
     seen = set()
